@@ -84,6 +84,12 @@ class Slicer:
             else:
                 exprs.append(self.call_expr(d[1], d[2]))
         self.inprog.discard(l)
+        tainted = False
+        if self.inprog:
+            for x in exprs:
+                if _has_cycle_to(x, self.inprog):
+                    tainted = True
+                    break
         if not exprs:
             if l in self.partial:
                 e = ("partial", l)
@@ -95,7 +101,8 @@ class Slicer:
             e = ("phi", exprs)
         if l in self.mut_borrowed:
             e = ("mutlocal", l, e)
-        self.memo[l] = e
+        if not tainted:
+            self.memo[l] = e
         return e
 
     def single_call_def(self, l):
@@ -207,7 +214,7 @@ class Slicer:
         if k == "cast":
             return ("cast", rv["kind"], self.operand(rv["op"]), rv["ty"], rv.get("from"))
         if k == "binop":
-            return ("binop", rv["op"], self.operand(rv["a"]), self.operand(rv["b"]))
+            return ("binop", rv["op"], self.operand(rv["a"]), self.operand(rv["b"]), rv.get("aty"))
         if k == "unop":
             return ("unop", rv["op"], self.operand(rv["a"]))
         if k == "discriminant":
@@ -227,6 +234,27 @@ class Slicer:
         if k == "repeat":
             return ("repeat", self.operand(rv["op"]), rv.get("n"))
         return ("opaque", "rvalue-" + k)
+
+
+def _has_cycle_to(e, locals_):
+    """Does expression e contain a ("cycle", L) marker for some L in locals_?"""
+    seen = set()
+    st = [e]
+    while st:
+        x = st.pop()
+        if id(x) in seen or not isinstance(x, tuple):
+            continue
+        seen.add(id(x))
+        if x and x[0] == "cycle":
+            if x[1] in locals_:
+                return True
+            continue
+        for c in x[1:]:
+            if isinstance(c, tuple):
+                st.append(c)
+            elif isinstance(c, list):
+                st.extend(y for y in c if isinstance(y, tuple))
+    return False
 
 
 # ---------------------------------------------------------------------------
@@ -415,6 +443,9 @@ def mk_tfield(e, idx):
 def mk_deref(e):
     if e[0] == "ref":
         return e[1]
+    if e[0] == "closure":
+        # closure bodies receive `&env` / `&mut env`; the environment value is modelled by value
+        return e
     return ("deref", e)
 
 
@@ -505,7 +536,7 @@ class Interp:
         elif k == "closure":
             out = ("closure", e[1], [r(a) for a in e[2]])
         elif k == "binop":
-            out = ("binop", e[1], r(e[2]), r(e[3]))
+            out = ("binop", e[1], r(e[2]), r(e[3]), e[4] if len(e) > 4 else None)
         elif k == "unop":
             out = ("unop", e[1], r(e[2]))
         elif k == "cast":
@@ -564,7 +595,7 @@ class Interp:
         elif k == "cast":
             out = ("cast", e[1], s(e[2]), e[3], e[4] if len(e) > 4 else None)
         elif k == "binop":
-            out = ("binop", e[1], s(e[2]), s(e[3]))
+            out = ("binop", e[1], s(e[2]), s(e[3]), e[4] if len(e) > 4 else None)
         elif k == "unop":
             out = ("unop", e[1], s(e[2]))
         elif k == "discr":
